@@ -3,6 +3,8 @@ Engine E1: exhaustive over all small synthetic drop profiles + real trajectories
 import itertools
 
 PID = 'C16'
+# thread bodies (defined with engine E4, mc/checks/c10_sched.py) that exercise this property's code; explored after the parts below
+SCHED_SETS = [('fire||danger', 'call')]
 LEVEL = 'model_checking'
 ENGINE = 'E1'
 TECHNIQUE = 'bounded exhaustive enumeration of all drop profiles up to n rows over a 5-level alphabet x every target row x 6 target heights, the statement evaluated literally as a scan'
